@@ -20,6 +20,11 @@ func pypiContains(constraints []string, version string) (bool, error) {
 		return false, err
 	}
 
+	// "*" matches every valid version, prereleases included
+	if matchesAll(constraints) {
+		return true, nil
+	}
+
 	// Check if version is a prerelease (has prerelease or dev components)
 	isPrerelease := isPyPIPrerelease(v)
 
